@@ -16,7 +16,7 @@ DEPENDS = ['TidalPy/RadialSolver', 'TidalPy/rheology', 'TidalPy/utilities/dimens
 MIN_DECISIVE = {'quick': 30, 'thorough': 600}
 CASE_TIMEOUT = 900
 WARMUP = True
-RULE = ('theorem cases: random 1-4 solid layers (+ optional static-liquid core), complex rigidity from the real Maxwell / Andrade / Burgers classes, l 2..4, '
+RULE = ('theorem cases: uniform or smoothly graded (non-constant dr) slices per layer; random 1-4 solid layers (+ optional static-liquid core), complex rigidity from the real Maxwell / Andrade / Burgers classes, l 2..4, '
         'frequency 1e-7..1e-3, three nested grids with >= 200 slices in total; kernel cases: two-layer elastic body with a Gaussian perturbation of K or mu at two amplitudes; '
         'non-trivial = all solves succeeded and -Im k > 1e-6 (theorem) / |delta k| > 1e-9 (kernel)')
 ASSUMPTIONS = ['discretisation error of the quadrature/stencil is first order in the slice spacing (upper layers start one slice above the interface): required |E(4N)| <= 0.75 |E(2N)| + 1/N_total, |E(2N)| <= 0.85 |E(N)| + 1/N_total and |E(4N)| <= 4/N_total (N_total = slices of the coarsest grid, >= 70 per layer)',
@@ -31,7 +31,7 @@ def gen_cases(tier, seed):
     for i in range(nt):
         cases.append({'mon': 'theorem', 'nl': int(rng.integers(1, 5)), 'liquid_core': bool(i % 4 == 3), 'l': int(rng.choice([2, 2, 3, 4])), 'freq': float(10 ** rng.uniform(-7, -3)),
                       'rheo': ['maxwell', 'andrade', 'burgers'][i % 3], 'R': float(10 ** rng.uniform(5.8, 7.1)), 'N': int(rng.choice([70, 100, 140])), 'sub': i, 'seed': seed,
-                      'profile': ['const', 'linear'][i % 2]})
+                      'profile': ['const', 'linear'][i % 2], 'grading': [0.0, 1.2, -0.8][i % 3] if i % 2 else [0.0, 0.0, 2.0][i % 3]})
     for i in range(nk):
         cases.append({'mon': 'kernel', 'which': ['K', 'mu'][i % 2], 'l': int(rng.choice([2, 3])), 'freq': float(10 ** rng.uniform(-6, -4)), 'R': float(10 ** rng.uniform(6, 7)),
                       'eps': float(rng.choice([1e-3, 2e-3])), 'sub': i, 'seed': seed})
@@ -54,6 +54,21 @@ def make_layers(c, rng):
         layers.append({'type': 'liquid' if liquid else 'solid', 'static': True if liquid else False, 'incomp': False, 'ftop': float(fr[i]), 'rho': float(dens[i]), 'mu': mu,
                        'K': float(10 ** rng.uniform(10.7, 11.7)), 'trend': tuple(float(x) for x in rng.uniform(-0.08, 0.08, 3))})
     return layers
+
+
+def make_grid(layers, R, n, c):
+    """uniform slices per layer, or a smoothly graded (geometric) spacing inside every layer: r = a + (b-a) (exp(beta x)-1)/(exp(beta)-1);
+    the same grading is kept under refinement so every spacing halves"""
+    from harness.physics import layered_body
+    beta = c.get('grading', 0.0)
+    if not beta:
+        return layered_body(layers, R, 1e-3 * R, n, profile=c['profile'])
+    bounds = [1e-3 * R] + [L['ftop'] * R for L in layers]
+    radii = []
+    for i in range(len(layers)):
+        x = np.linspace(0, 1, n) if i == 0 else np.linspace(0, 1, n + 1)[1:]
+        radii.append(bounds[i] + (bounds[i + 1] - bounds[i]) * (np.exp(beta * x) - 1) / (np.exp(beta) - 1))
+    return layered_body(layers, R, 1e-3 * R, n, profile=c['profile'], radii_by_layer=radii)
 
 
 def eval_case(c):
@@ -80,7 +95,7 @@ def eval_case(c):
         for f in (1, 2, 4):
             # uniform refinement: the first slice of every upper layer moves towards its interface, so the part of the integral
             # that lies between an interface and the first slice above it shrinks with the spacing
-            body = layered_body(layers, R, 1e-3 * R, f * c['N'], profile=c['profile'])
+            body = make_grid(layers, R, f * c['N'], c)
             cnt['solves'] += 1
             s = solve(body, w, l=l, kamata=True, rtol=1e-10, max_steps=400000, keep_result=True)
             if not s['success']:
@@ -123,7 +138,7 @@ def eval_case(c):
         # sensitivity differentiates them numerically; when the same grid solved with another integrator moves E by more than the
         # convergence slack, the case says nothing about the theorem (inconclusive)
         if not viol and len(Es) == 3:
-            body = layered_body(layers, R, 1e-3 * R, 4 * c['N'], profile=c['profile'])
+            body = make_grid(layers, R, 4 * c['N'], c)
             cnt['solves'] += 1
             sp = solve(body, w, l=l, kamata=True, rtol=1e-12, max_steps=800000, keep_result=True, method='DOP853')
             if not sp['success']:
